@@ -60,7 +60,7 @@ def descriptor_xml(storages, shots, top_guid=DEFAULT_TOP, disk_size=None, extra=
     """storages: [(start, end, [(guid, type, file), ...])]; shots: [(guid, parent_guid)]."""
     st = "".join(
         f"<Storage><Start>{s}</Start><End>{e}</End><Blocksize>2048</Blocksize>"
-        + "".join(f"<Image><GUID>{g}</GUID><Type>{t}</Type><File>{fn}</File></Image>" for g, t, fn in imgs)
+        + "".join(f"<Image><GUID>{g}</GUID><Type>{t}</Type><File>{_xml_text(fn)}</File></Image>" for g, t, fn in imgs)
         + "</Storage>"
         for s, e, imgs in storages
     )
@@ -75,10 +75,14 @@ def descriptor_xml(storages, shots, top_guid=DEFAULT_TOP, disk_size=None, extra=
     )
 
 
+def _xml_text(s):
+    return s.replace("&", "&amp;").replace("<", "&lt;").replace(">", "&gt;")
+
+
 def write_hdd_dir(path, storages, shots, files, top_guid=DEFAULT_TOP):
     """files: {filename: VirtualFile}. Writes DiskDescriptor.xml and the image files (sparse)."""
     os.makedirs(path, exist_ok=True)
-    with open(os.path.join(path, "DiskDescriptor.xml"), "w") as f:
+    with open(os.path.join(path, "DiskDescriptor.xml"), "w", encoding="utf-8") as f:
         f.write(descriptor_xml(storages, shots, top_guid))
     for fn, vf in files.items():
         vf.materialise(os.path.join(path, fn))
